@@ -254,6 +254,7 @@ structure Sim (s t : State) : Prop where
   valTok : t.valTok = s.valTok
   period : t.period = s.period
   nextUnbId : t.nextUnbId = s.nextUnbId
+  blockFirstId : t.blockFirstId = s.blockFirstId
   nextProp : t.nextProp = s.nextProp
   bal : BalRel frm to s.bal t.bal
   dels : ExtRel (swP frm to) id s.dels t.dels
@@ -404,7 +405,7 @@ theorem sim_undelegate (hm : ModFix frm to) {s t : State} (h : Sim frm to s t) (
     OptRel (Sim frm to) (undelegate s d v amt rw) (undelegate t (sw frm to d) v amt rw) := by
   unfold undelegate
   have e0 : get t.ubds (sw frm to d, v) = get s.ubds (d, v) := h.ubds.get_id (d, v)
-  rw [h.vals, e0, h.maxEntries, h.now, h.unbondTime]
+  rw [h.vals, e0, h.maxEntries, h.now, h.unbondTime, h.blockFirstId]
   split
   · trivial
   · simp only
@@ -735,8 +736,10 @@ theorem sim_endBlock (hm : ModFix frm to) {s t : State} (h : Sim frm to s t) (dt
     Sim frm to (endBlock s dt) (endBlock t dt) := by
   unfold endBlock
   have h1 := sim_govEnd hm (sim_stakingEnd hm h)
-  simp only
-  exact { h1 with now := by show _ + dt = _ + dt; rw [h1.now] }
+  generalize govEnd (stakingEnd s) = a at h1 ⊢
+  generalize govEnd (stakingEnd t) = b at h1 ⊢
+  have hn : b.now + dt = a.now + dt := by rw [h1.now]
+  exact { h1 with now := hn, blockFirstId := h1.nextUnbId }
 
 theorem swS_inj' {β : Type} : ∀ a b : β × Addr, swS frm to a = swS frm to b → a = b := fun a b h => swS_inj frm to a b h
 
@@ -818,6 +821,7 @@ def swOp (frm to : Addr) : Op → Op
   | .vote a id => .vote (sw frm to a) id
   | .block dt => .block dt
   | .setPeriods dp vp => .setPeriods dp vp
+  | .setUnbond n => .setUnbond n
   | .migrate f t sg => .migrate (sw frm to f) (sw frm to t) sg
 
 def isMigrate : Op → Bool
@@ -856,6 +860,7 @@ theorem sim_step (hm : ModFix frm to) (c : Cfg) {s t : State} (h : Sim frm to s 
   | vote a id => exact sim_ofOpt h (sim_vote h a id)
   | block dt => exact ⟨sim_endBlock hm h dt, rfl⟩
   | setPeriods dp vp => exact ⟨{ h with depPeriod := rfl, votePeriod := rfl }, rfl⟩
+  | setUnbond n => exact ⟨{ h with unbondTime := rfl }, rfl⟩
   | migrate f t sg => simp [isMigrate] at hop
 
 /-- the answers of a history -/
